@@ -11,20 +11,37 @@ use crate::overlap::{is_contiguous, may_have_internal_overlap};
 use crate::slice_range::{IntoSliceItems, SliceItem};
 use crate::type_num::{OptionalUInt, U0, U1, U2, U3, U4, U5, Unknown};
 
+/// Return the number of elements in a tensor with a given shape, or `None` if
+/// it cannot be represented as a `usize`.
+pub(crate) fn checked_len(shape: impl Iterator<Item = usize>) -> Option<usize> {
+    let mut len = Some(1usize);
+    for size in shape {
+        if size == 0 {
+            return Some(0);
+        }
+        len = len.and_then(|len| len.checked_mul(size));
+    }
+    len
+}
+
 /// Return the minimum storage length required by a layout with the given
 /// shape and strides, or `None` if it cannot be represented as a `usize`.
 ///
 /// A layout whose largest element offset overflows cannot be backed by any
 /// storage, and the unchecked arithmetic used elsewhere would wrap around.
-fn checked_min_data_len(shape: &[usize], strides: &[usize]) -> Option<usize> {
-    if shape.contains(&0) {
-        return Some(0);
+pub(crate) fn checked_min_data_len(
+    shape: impl Iterator<Item = usize>,
+    strides: impl Iterator<Item = usize>,
+) -> Option<usize> {
+    let mut max_offset = Some(0usize);
+    for (size, stride) in shape.zip(strides) {
+        if size == 0 {
+            return Some(0);
+        }
+        max_offset =
+            max_offset.and_then(|offset| offset.checked_add((size - 1).checked_mul(stride)?));
     }
-    let mut max_offset: usize = 0;
-    for (&size, &stride) in shape.iter().zip(strides) {
-        max_offset = max_offset.checked_add((size - 1).checked_mul(stride)?)?;
-    }
-    max_offset.checked_add(1)
+    max_offset?.checked_add(1)
 }
 
 /// Return true if `permutation` is a valid permutation of dimensions for
@@ -948,6 +965,11 @@ impl<const N: usize> BroadcastLayout<NdLayout<N>> for DynLayout {
 
 impl<const N: usize> FromShape for NdLayout<N> {
     fn from_shape(shape: [usize; N]) -> Self {
+        assert!(
+            checked_len(SizeArray::iter(&shape)).is_some(),
+            "number of elements in shape {:?} overflows",
+            shape
+        );
         Self {
             shape,
             strides: Self::contiguous_strides(shape),
@@ -961,7 +983,7 @@ impl<const N: usize> MutLayout for NdLayout<N> {
         strides: Self::Strides<'_>,
         overlap: OverlapPolicy,
     ) -> Result<Self, FromDataError> {
-        if checked_min_data_len(&shape, &strides).is_none() {
+        if checked_min_data_len(SizeArray::iter(&shape), SizeArray::iter(&strides)).is_none() {
             return Err(FromDataError::StorageTooShort);
         }
         let layout = NdLayout { shape, strides };
@@ -1079,6 +1101,11 @@ impl<const N: usize> MutLayout for NdLayout<N> {
 
 impl FromShape for DynLayout {
     fn from_shape(shape: &[usize]) -> Self {
+        assert!(
+            checked_len(SizeArray::iter(&shape)).is_some(),
+            "number of elements in shape {:?} overflows",
+            shape
+        );
         DynLayout {
             shape_and_strides: Self::contiguous_shape_and_strides(shape),
         }
@@ -1091,7 +1118,7 @@ impl MutLayout for DynLayout {
         strides: &[usize],
         overlap: OverlapPolicy,
     ) -> Result<Self, FromDataError> {
-        if checked_min_data_len(shape, strides).is_none() {
+        if checked_min_data_len(SizeArray::iter(&shape), SizeArray::iter(&strides)).is_none() {
             return Err(FromDataError::StorageTooShort);
         }
         let mut shape_and_strides = SmallVec::with_capacity(shape.len() + strides.len());
